@@ -22,9 +22,9 @@ from vlib import VERIF
 PIPE = {
     "C01": dict(clauses=["C01_"], sims=[("Sim_multi", 60, 600, 170), ("Sim_multi_crash", 40, 500, 170)], mc=[("MC_c01q", 400, "quick"), ("MC_c01", 1500, "thorough")]),
     "C02": dict(clauses=["C02_"], sims=[("Sim_base", 50, 500, 150), ("Sim_conn", 50, 500, 150), ("Sim_multi", 20, 300, 170)], mc=[("MC_c02", 900, "both")]),
-    "C04": dict(clauses=["C04_"], sims=[("Sim_conn", 80, 800, 150), ("Sim_rollback", 30, 400, 170)], mc=[("MC_c04", 900, "both")]),
-    "C05": dict(clauses=["C05_"], sims=[("Sim_base", 60, 600, 150), ("Sim_multi", 40, 400, 170)], mc=[("MC_c05", 900, "both")]),
-    "C06": dict(clauses=["C06_"], sims=[("Sim_rollback", 100, 1000, 170)], mc=[("MC_c06", 900, "both")]),
+    "C04": dict(clauses=["C04_"], sims=[("Sim_conn", 80, 800, 150), ("Sim_rollback", 30, 400, 170)], mc=[("MC_c04q", 400, "quick"), ("MC_c04", 1500, "thorough")], data=True),
+    "C05": dict(clauses=["C05_"], sims=[("Sim_base", 60, 600, 150), ("Sim_multi", 40, 400, 170)], mc=[("MC_c05", 900, "both")], data=True),
+    "C06": dict(clauses=["C06_"], sims=[("Sim_rollback", 100, 1000, 170)], mc=[("MC_c06", 900, "both")], data=True),
     "C07": dict(clauses=["C07_"], sims=[("Sim_crash", 80, 800, 150), ("Sim_multi_crash", 40, 400, 170)], mc=[("MC_c07", 900, "both")], crashpoints=True),
     "C08": dict(clauses=["C08_"], sims=[("Sim_client", 90, 900, 150), ("Sim_base", 30, 300, 150), ("Sim_dev", 30, 300, 150), ("Sim_rollback", 20, 200, 170)], mc=[("MC_c08", 900, "both")]),
     "C09": dict(clauses=["C09_"], sims=[("Sim_base", 80, 800, 150), ("Sim_dev", 40, 400, 150), ("Sim_multi", 30, 300, 170)], mc=[("MC_c09", 900, "both")]),
@@ -77,15 +77,19 @@ def load_regress(prop):
 
 
 def replay(bins, scenarios, outdir, workers=16):
-    inp = outdir + ".in.ndjson"
-    with open(inp, "w") as f:
-        for s in scenarios:
-            f.write(json.dumps(s) + "\n")
-    r = subprocess.run([bins["replay"], "-in", inp, "-out", outdir, "-workers", str(workers)],
-                       stdout=subprocess.PIPE, stderr=subprocess.PIPE, text=True, timeout=7200)
-    infra = [l for l in r.stderr.splitlines() if l.startswith("replay: scenario")]
-    if r.returncode not in (0, 2):
-        raise vlib.Inconclusive("replay crashed rc=%d:\n%s" % (r.returncode, r.stderr[-3000:]))
+    os.makedirs(outdir, exist_ok=True)
+
+    def cmd(ci, chunk):
+        inp = "%s.in%03d.ndjson" % (outdir, ci)
+        with open(inp, "w") as f:
+            for s in chunk:
+                f.write(json.dumps(s) + "\n")
+        return [bins["replay"], "-in", inp, "-out", outdir, "-workers", "4"]
+    infra = []
+    for ci, rc, out, err in vlib.run_chunked(cmd, scenarios):
+        infra += [l for l in err.splitlines() if l.startswith("replay: scenario")]
+        if rc not in (0, 2):
+            raise vlib.Inconclusive("replay crashed rc=%d:\n%s" % (rc, err[-3000:]))
     return infra
 
 
@@ -317,6 +321,15 @@ def check(prop, tier, replay_file=None):
                         violations.append((nm, line, c))
         for kid, (k, n) in sorted(known_hits.items()):
             print("KNOWN-FINDING: property=%s %s (%d traces)" % (prop, k["what"], n))
+        # the data clauses of this property on request histories (spec/data, harness/cmd/datarun)
+        data_ev, data_viols = None, []
+        if conf.get("data") and not replay_file:
+            import datacheck
+            dbins = vlib.build_harness(sc, cmds=("datarun",))
+            dres = datacheck.run(prop, tier, [prop + "_"], sc, dbins)
+            data_viols, dhits = datacheck.classify_and_report(prop, dres, known)
+            data_ev = dict(histories=len(dres["names"]), observations=dres["observations"], exploration=dres["explored"],
+                           violations=len(data_viols), known_findings={k: n for k, (_, n) in dhits.items()})
         reported = {}
         for nm, line, c in violations:
             reported[c] = reported.get(c, 0) + 1
@@ -337,11 +350,12 @@ def check(prop, tier, replay_file=None):
         lines_total = sum(per_trace[n]["lines"] for n in names)
         ev = dict(
             property_id=prop, tier=tier, seed=sd, level="model_checking", wall_s=round(time.time() - t0, 1),
-            violations=len(violations),
+            violations=len(violations) + len(data_viols),
             coverage=dict(
+                data_histories=data_ev,
                 states=max(1, sum(r["distinct"] for r in mc_results) + 0),
                 transitions=max(1, sum(r["generated"] for r in mc_results) + sim_generated),
-                traces_validated_against_impl=len(names),
+                traces_validated_against_impl=len(names) + (data_ev["histories"] if data_ev else 0),
                 real_states_checked=lines_total,
                 clauses=clauses,
                 model_checking=mc_results,
